@@ -101,6 +101,29 @@ func (c RuleLinkCheck) Check(ctx context.Context, entry discovery.Entry, _ []dis
 		defer cancel()
 
 		req, _ := http.NewRequestWithContext(rctx, http.MethodGet, uri, nil)
+		if req == nil {
+			// The URI produced by the rewrite rule is not something a request can be made for.
+			problems = append(problems, Problem{
+				Anchor: AnchorAfter,
+				Lines: diags.LineRange{
+					First: ann.Key.Pos.Lines().First,
+					Last:  ann.Value.Pos.Lines().Last,
+				},
+				Reporter: c.Reporter(),
+				Summary:  "link check failed",
+				Details:  maybeComment(c.comment),
+				Diagnostics: []diags.Diagnostic{
+					{
+						Message:     fmt.Sprintf("GET request for %s cannot be created: invalid URI.", uri),
+						Pos:         ann.Value.Pos,
+						FirstColumn: 1,
+						LastColumn:  len(ann.Value.Value),
+					},
+				},
+				Severity: c.severity,
+			})
+			continue
+		}
 
 		for k, v := range c.headers {
 			req.Header.Set(k, v)
